@@ -1441,6 +1441,7 @@ func scenC07(g *Gen, dir string) ([]*Op, func(e *Env, i int, op *Op, obs []strin
 	}
 	variant := r.Intn(10)
 	mangled := false
+	hintKey := -1
 	var nobj uint32
 	for _, x := range groups {
 		nobj += uint32(len(x))
@@ -1486,7 +1487,22 @@ func scenC07(g *Gen, dir string) ([]*Op, func(e *Env, i int, op *Op, obs []strin
 					other = append(other, k)
 				}
 			}
-			if len(other) > 0 {
+			if len(other) > 1 && r.Chance(1, 2) {
+				// a co-signature from another writer whose "keyid" hints are not the truth: an extra
+				// entry that names a key the verifier is given but carries no signature of it, or no
+				// hint at all on the genuine entry.  The envelope is valid; who validated it is not
+				// what the hints say.
+				k1 := pick(r, other)
+				k2 := pick(r, other)
+				for k2 == k1 {
+					k2 = pick(r, other)
+				}
+				ops = append(ops, &Op{Kind: "sign", S: SOpts{PGP: -1, DSSE: []int{k1}, Groups: []uint32{1}, T: TOpt{Kind: "det"}}},
+					&Op{Kind: "mangle", S: SOpts{Groups: []uint32{1}, DSSE: []int{k2}}, N: int64(3 + r.Intn(2))})
+				signers = append(signers, k1)
+				hintKey = k2
+				g.count("variant:envelope-with-untruthful-keyid-hints")
+			} else if len(other) > 0 {
 				k1 := pick(r, other)
 				ops = append(ops, &Op{Kind: "sign", S: SOpts{PGP: -1, DSSE: []int{k1}, Groups: []uint32{1}, T: TOpt{Kind: "det"}}},
 					&Op{Kind: "mangle", S: SOpts{Groups: []uint32{1}}, N: int64(r.Intn(3))})
@@ -1543,6 +1559,10 @@ func scenC07(g *Gen, dir string) ([]*Op, func(e *Env, i int, op *Op, obs []strin
 		g.count("trust:other-scheme")
 	default:
 		g.count("trust:none")
+	}
+	if hintKey >= 0 {
+		// every signer and the key the hint names are supplied
+		trust = append(append([]int{}, signers...), hintKey)
 	}
 	v := trustFor(dedupInts(trust))
 	switch r.Intn(3) {
